@@ -60,6 +60,9 @@ def check(ck: Checker) -> None:
     from . import round7 as _r7
 
     _r7.protect_always_chmods(ck, "C07.localtrust")
+    from . import round5 as _r5
+
+    _r5.local_add_rechecks_unprotected(ck, "C07.localtrust")
     _r7.exists_missing_only_by_check(ck, "C07.exists")
     _r7.failed_copy_never_trusted(ck, "C07.verify")
     from . import round8 as _r8
